@@ -342,8 +342,30 @@ func CheckChangesScope(opts migrate.PlanOptions, changes []schema.Change) error 
 			t = c.T
 		case *schema.ModifyTable:
 			t = c.T
+			// A foreign key that is dropped (or replaced) is not part of c.T anymore, but
+			// the statement that reverses the change references its parent table.
+			for _, c := range c.Changes {
+				var r *schema.Table
+				switch c := c.(type) {
+				case *schema.DropForeignKey:
+					r = c.F.RefTable
+				case *schema.ModifyForeignKey:
+					r = c.From.RefTable
+				}
+				if r != nil && r.Schema != nil && r.Schema.Name != "" {
+					names[r.Schema.Name] = struct{}{}
+				}
+			}
 		case *schema.DropTable:
 			t = c.T
+		case *schema.RenameTable:
+			// A table cannot be moved to another schema by renaming it.
+			for _, t := range []*schema.Table{c.From, c.To} {
+				if t.Schema != nil && t.Schema.Name != "" {
+					names[t.Schema.Name] = struct{}{}
+				}
+			}
+			continue
 		default:
 			continue
 		}
